@@ -27,6 +27,8 @@ class CoinSelector:
     def select(
             self, txos: List[OutputEffectiveAmountEstimator],
             strategy_name: str = None) -> List[OutputEffectiveAmountEstimator]:
+        # an output worth no more than the fee to spend it can never help to fund anything
+        txos = [c for c in txos if c.effective_amount > 0]
         if not txos:
             return []
         available = sum(c.effective_amount for c in txos)
